@@ -67,7 +67,8 @@ def make_cases(recs, tier, seed):
                 opts = [o for o in opts if not (o[0] == 'max' and n > (1 if m == 'multicomplex' else 2)) and not (o[0] == 'min' and m == 'multicomplex')]
                 kind, sk = rnd.choice(opts)
                 arr = rnd.random() < 0.25
-                cases.append((pi, m, n, order, a, kind, sk, arr))
+                cval = m in ('central', 'forward', 'backward') and rnd.random() < 0.2
+                cases.append((pi, m, n, order, a, kind, sk, arr, cval))
     return cases
 
 
@@ -84,10 +85,12 @@ RECS = None
 def run_case(case):
     vlib.use_repo()
     import numdifftools as nd
-    pi, m, n, order, a, kind, sk, arr = case
+    pi, m, n, order, a, kind, sk, arr, cval = case
     r = RECS[pi]
     c = r['c'][0] / r['c'][1]
-    f0 = exprs.make_fun(r['prog'], c, a)
+    f00 = exprs.make_fun(r['prog'], c, a)
+    CF = (0.6 + 0.8j) if cval else 1.0          # complex-valued f = (0.6+0.8i) * g, |factor| = 1
+    f0 = (lambda z: f00(z) * CF) if cval else f00
     jf = np.array(exprs.jet_floats(r['jet']))
     s0 = float(np.max(np.abs(jf)))
     seen = [0.0, 0.0]
@@ -105,6 +108,7 @@ def run_case(case):
             t = np.zeros_like(du)
             for ck in jf[::-1]:
                 t = t * du + ck
+            t = t * CF
             with np.errstate(all='ignore'):
                 dev = np.abs(t - w)
             dev = np.where(np.isfinite(dev), dev, np.inf)
@@ -145,9 +149,9 @@ def run(tier, rep):
     allr = collections.defaultdict(list)
     nontriv = set()
     for case, o in zip(cases, outs):
-        pi, m, n, order, a, kind, sk, arr = case
+        pi, m, n, order, a, kind, sk, arr, cval = case
         r = uniq[pi]
-        name = '%s @ c=%s a=%r | %s n=%d order=%d step=%s%s' % ('.'.join(r['prog']), '/'.join(map(str, r['c'])), a, m, n, order, kind, ' array' if arr else '')
+        name = '%s @ c=%s a=%r | %s n=%d order=%d step=%s%s%s' % ('.'.join(r['prog']), '/'.join(map(str, r['c'])), a, m, n, order, kind, ' array' if arr else '', ' complex-valued' if cval else '')
         if o[0] == 'raise':
             if m == 'multicomplex' and n > 2:
                 continue
@@ -164,9 +168,14 @@ def run(tier, rep):
         if shape != ([2] if arr else []):
             rep.violation('shape:%s' % m, dict(prog=r['prog'], shape=shape), '%s: result shape %s' % (name, shape))
             continue
-        err = max(abs(v - exact) for v in vre)
-        if vim is not None:
-            err = max([err] + [abs(v) for v in vim])
+        if cval:
+            if vim is None:
+                vim = [0.0] * len(vre)
+            err = max(abs(complex(a_, b_) - exact * (0.6 + 0.8j)) for a_, b_ in zip(vre, vim))
+        else:
+            err = max(abs(v - exact) for v in vre)
+            if vim is not None:
+                err = max([err] + [abs(v) for v in vim])
         nchk += 1
         ratio = err / sigma if np.isfinite(err) else float('inf')
         worst[(m, n, kind)] = max(worst[(m, n, kind)], ratio)
